@@ -416,19 +416,23 @@ func c13Run(c *core.Ctx) {
 							}
 						}
 						runPos([]byte(sb.String()), "application/x-ndjson", "P2:stream")
-						// the same stream with a blank line after its second record
+						// the same stream with a blank line (empty, or holding only
+						// spaces / tabs) after its second record
 						if len(sel) >= 3 {
-							sb.Reset()
-							for i, ri := range sel {
-								if i == 2 {
-									sb.WriteString(eol)
+							for _, bl := range []string{"", " ", "\t "} {
+								sb.Reset()
+								for i, ri := range sel {
+									if i == 2 {
+										sb.WriteString(bl)
+										sb.WriteString(eol)
+									}
+									sb.WriteString(recs[ri])
+									if i < len(sel)-1 || final {
+										sb.WriteString(eol)
+									}
 								}
-								sb.WriteString(recs[ri])
-								if i < len(sel)-1 || final {
-									sb.WriteString(eol)
-								}
+								runPos([]byte(sb.String()), "application/x-ndjson", "P2:stream-with-blank-line")
 							}
-							runPos([]byte(sb.String()), "application/x-ndjson", "P2:stream-with-blank-line")
 						}
 					}
 				}
